@@ -264,6 +264,12 @@ impl Property for C04 {
         }
         let once = label_counts.values().all(|c| *c == 1);
         let mut auth: Vec<PublicKey> = spec.authorized.iter().map(|i| public(&spec.keys[*i])).collect();
+        // one case in five: an authorised key is handed over twice (it is still one key)
+        if spec.perm.first().map(|x| x % 5 == 0).unwrap_or(false) && !auth.is_empty() {
+            let again = auth[spec.perm.len() % auth.len()].clone();
+            auth.push(again);
+            o.class("authorised-key-listed-twice");
+        }
         let mut b = b;
         if let Some((i, genuine)) = spec.unknown_scheme {
             let u = crate::world::unknown_scheme_key(&spec.keys[i % n]);
